@@ -11,6 +11,7 @@ func init() {
 			"FE-CLASS: KeyToLabel fast/slow tables over 29 rune representatives x {first, not first}; exits return the key unchanged / the built label",
 			"FE-CLASS: lexerql.IsIdentStartRune / IsIdentRune / IsDigit / IsLetter are exactly the ASCII classes; IsValidLabel applies them to first/rest and rejects the empty name",
 			"PV-API: getLabels (Docker labels, after the fixed labels), LabelSet.SetAttrs, json extractAll store under KeyToLabel(key) on every path",
+			"the openLog origin rule: the container id never comes from a (sanitised) label",
 		},
 		NotDecided: []string{"the empty key (maps to the empty name; recorded as an assumption)", "collisions of two Docker keys that sanitise to the same name", "that the representatives cover every rune: they cover both sides of every comparison constant in the ASCII range and letters/digits/symbols outside it"},
 		Rules: func(r *Run) {
